@@ -113,6 +113,7 @@ func runOne(ctx *Ctx, c Cmd) (ev Ev) {
 		ev[k] = v
 	}
 	ev["panic"] = ""
+	ev["fault"] = false
 	op := c.str("op")
 	if op == "scenario" {
 		ctx.objs = map[string]interface{}{}
@@ -125,7 +126,11 @@ func runOne(ctx *Ctx, c Cmd) (ev Ev) {
 	}
 	defer func() {
 		if r := recover(); r != nil {
-			ev["panic"] = fmt.Sprint(r)
+			msg := fmt.Sprint(r)
+			ev["panic"] = msg
+			// a memory fault turned into a panic by debug.SetPanicOnFault (as opposed to a
+			// deliberate or bounds-check panic)
+			ev["fault"] = strings.Contains(msg, "fault address") || strings.Contains(msg, "invalid memory address")
 		}
 	}()
 	f(ctx, c, ev)
